@@ -126,6 +126,10 @@ var ledgerSpecs = []ledgerSpec{
 			// a stale overdrawing side tip whose parents get checkpointed (node 0 holds mx on p1 while node 1's chain grows past it)
 			{"stale-side-tip+truncate", ledger.Cfg{Nodes: []string{"G", "N1"}, Supply: sp(10, 0), Menu: []ledger.TxSpec{t1, t3}, Hidden: []ledger.TxSpec{mx}, MaxProposeNodes: 1, Truncate: true,
 				Prefix: []string{"P:0:p1", "D:1:0", "X:0:mx", "P:1:p2", "P:1:p3", "P:1:p4", "D:0:2", "D:0:3", "D:0:4"}, Props: only("C02")}, d - 1, 0, 0},
+			// a paid contract (data AND spice) spends a wallet's funds, gets checkpointed, then the wallet tries to spend again
+			{"paid-contract+truncate", ledger.Cfg{Nodes: []string{"G"}, Supply: sp(10, 0), Menu: []ledger.TxSpec{tx("tz2", "A", "B", 6, 0), cfl2("c7"), cfl2("c8")},
+				Hidden: []ledger.TxSpec{t1, {Label: "pc", From: "A", To: "B", Cur: 6, Data: "paid contract"}, cfl2("c4"), cfl2("c5"), cfl2("c6")}, Truncate: true,
+				Prefix: []string{"P:0:t1", "P:0:pc", "P:0:c4", "P:0:c5", "P:0:c6", "T:0"}, Props: only("C02")}, 3, 0, 0},
 			// a wallet pays itself: the amount is income and spending at once (A holds 6, pays itself 5, then tries to pay 9)
 			{"self-payment", ledger.Cfg{Nodes: []string{"G"}, Supply: sp(10, 0), Menu: []ledger.TxSpec{t1, tx("sp5", "A", "A", 5, 0), tx("sb9", "A", "B", 9, 0), tx("sp20", "B", "B", 20, 0), t7}, Props: only("C02")}, d, 0, 0},
 		}
@@ -239,6 +243,10 @@ var ledgerSpecs = []ledgerSpec{
 		// two tips with partly overlapping ancestries: G<-A<-T1 and T2(A,B) with G<-B, as two concurrently sealing nodes produce
 		forked := []string{"P:0:t1", "P:0:t3", "P:1:t2", "D:1:0", "P:1:t4", "D:0:2", "D:0:3"}
 		return []ledgerRun{
+			// a tip lagging far behind the heaviest vertex (sealed by an outside node on genesis) and, still in flight, a vertex that approves it
+			{"lagging-tip+follow-up", ledger.Cfg{Nodes: []string{"G", "N1"}, Spare: "N2", Sync: true, Supply: sp(10, 0), Menu: []ledger.TxSpec{t7},
+				Hidden: []ledger.TxSpec{tx("side", "R", "B", 1, 0), tx("kid", "R", "B", 1, 0)}, MaxProposeNodes: 1,
+				Prefix: []string{"P:0:p1", "P:0:p2", "P:0:p3", "P:0:p4", "P:0:p5", "Z:0:side", "Z:1:kid:5"}, Props: only("C14")}, 1, 1, 3},
 			{"forked-tips", ledger.Cfg{Nodes: []string{"G", "N1"}, Spare: "N2", Sync: true, Supply: sp(10, 0), Menu: []ledger.TxSpec{t7}, Hidden: []ledger.TxSpec{t1, t2, t3, t4}, MaxProposeNodes: 1, Prefix: forked, Props: only("C14")}, 2, 3, 6},
 			{"truncated-sources", ledger.Cfg{Nodes: []string{"G"}, Spare: "N2", Sync: true, Supply: sp(10, 0), Menu: []ledger.TxSpec{t1, t3}, Truncate: true, Prefix: chain, Props: only("C14")}, d - 1, 2, 4},
 			{"multi-tip-sources", ledger.Cfg{Nodes: []string{"G", "N1"}, Spare: "N2", Sync: true, Supply: sp(10, 0), Menu: []ledger.TxSpec{t1, t2, t3}, Crafted: []ledger.TxSpec{tx("side", "R", "B", 1, 0)}, MaxProposeNodes: 1, Props: only("C14")}, d, 2, 4},
@@ -328,6 +336,13 @@ func ledgerMain(s ledgerSpec, args []string) int {
 	}
 	if s.id == "C06" && *replay != "" && isSchedReplay(*replay) {
 		return sched.ReplayFile("C06", c06Scenarios(), *replay)
+	}
+	if s.id == "C13" && fs.NArg() >= 1 && fs.Arg(0) == "schedworker" {
+		sched.WorkerMain(c13Scenarios())
+		return 0
+	}
+	if s.id == "C13" && *replay != "" && isSchedReplay(*replay) {
+		return sched.ReplayFile("C13", c13Scenarios(), *replay)
 	}
 	if s.id == "C10" && fs.NArg() >= 1 && fs.Arg(0) == "schedworker" {
 		sched.WorkerMain(c10Scenarios())
@@ -446,6 +461,13 @@ func ledgerMain(s ledgerSpec, args []string) int {
 		ex, div := c06SchedRun(rep, *procs)
 		if !ex {
 			rep.Set("exhaustive", false)
+		}
+		total.Diverged += div
+	}
+	if s.id == "C13" && (*run == "" || *run == "sched") {
+		ex, div := schedPart(rep, "C13", c13Scenarios(), *procs, 0)
+		if !ex {
+			rep.Set("sched_note", "SCHED part capped; SPACE part exhaustive within its bound")
 		}
 		total.Diverged += div
 	}
